@@ -770,6 +770,16 @@ def do_verify(options):
     if not repofiles:
         raise NoFiles('No files in repository')
     datfile = os.path.splitext(repofiles[0])[0] + '.dat'
+    # The files were found by looking for the newest full backup that is
+    # still there.  A newer .dat file means that the full backup it
+    # describes is gone.
+    for fn in sorted(os.listdir(options.repository)):
+        root, ext = os.path.splitext(fn)
+        if ext == '.dat' and is_data_file(root + '.fs') and \
+                os.path.join(options.repository, fn) > datfile:
+            raise VerificationFail(
+                "the full backup of %s is missing" % os.path.join(
+                    options.repository, fn))
     with open(datfile) as fp:
         for line in fp:
             fn, startpos, endpos, sum = line.split()
